@@ -600,6 +600,12 @@ fn c07(tier: &str, known: &[crate::runner::Known]) -> PureResult {
             }
         }
     }
+    // contended variant (chain only): weak-pointer traffic collides with the cascade on every 500th node
+    for &n in ns.iter().filter(|&&n| n >= 10_000 && n <= 1_000_000) {
+        for &st in [0usize, 2048, 512].iter() {
+            cases.push((0, n, st, 2));
+        }
+    }
     let total = cases.len();
     let queue = Arc::new(Mutex::new(cases));
     let results: Arc<Mutex<Vec<((usize, usize, usize, usize), Option<i32>, String)>>> = Arc::new(Mutex::new(vec![]));
@@ -631,7 +637,7 @@ fn c07(tier: &str, known: &[crate::runner::Known]) -> PureResult {
     let mut r = PureResult {
         exhaustive: true,
         rule: "every point of the grid shape {chain, left comb, right comb, balanced tree, spine with leaves} x n x thread stack size x reclaiming context {plain call, thread-local destructor at thread exit}; each case is a child process that builds the structure iteratively, ages the links, drops the head on a thread with that stack and runs rounds; distinct = distinct grid points".into(),
-        bounds: json!({"n": ns, "stack_kib": stacks, "contexts": ["call", "tls-destructor"], "profile": "release, feature circ_verif compiled in but no hooks installed"}),
+        bounds: json!({"n": ns, "stack_kib": stacks, "contexts": ["call", "tls-destructor", "call with weak-pointer traffic colliding with the cascade (chain, n >= 10^4)"], "profile": "release, feature circ_verif compiled in but no hooks installed"}),
         assumptions: vec!["frame sizes are those of this build (release, hooks compiled in but inactive)".into()],
         ..Default::default()
     };
@@ -642,11 +648,12 @@ fn c07(tier: &str, known: &[crate::runner::Known]) -> PureResult {
     }
     for (c, code, text) in res.iter() {
         acc.case(h2((c.0 * 4 + c.3) as u64, h2(c.1 as u64, c.2 as u64)));
-        let desc = format!("shape {} n={} stack={} KiB context={}", crate::c07::SHAPES[c.0], c.1, if c.2 == 0 { "main".to_string() } else { c.2.to_string() }, if c.3 == 0 { "call" } else { "tls-destructor" });
+        let desc = format!("shape {} n={} stack={} KiB context={}", crate::c07::SHAPES[c.0], c.1, if c.2 == 0 { "main".to_string() } else { c.2.to_string() }, ["call", "tls-destructor", "call with colliding weak-pointer traffic"][c.3]);
         match code {
             Some(0) => {}
             Some(-99) => r.machinery.push(format!("{}: could not run: {}", desc, text)),
             Some(3) => acc.fail("nodes-not-reclaimed", format!("{}: {}", desc, text)),
+            Some(5) => r.machinery.push(format!("{}: the collisions did not happen: {}", desc, text)),
             other => {
                 // killed by a signal (stack overflow aborts the process) or panicked
                 let scen = if c.2 != 0 && c.2 <= 128 { "c07/stack<=128KiB" } else { "c07/stack>128KiB" };
